@@ -73,6 +73,12 @@ type c14Shared struct {
 	rl     []ratelimiter.RateLimiter[int]
 	bh     []bulkhead.Bulkhead[int]
 	events atomic.Int64
+	// breaker state-change events must form a connected path (checked inside the generic listener, which the
+	// breaker calls under its own lock)
+	lastState  atomic.Int64
+	pathBroken atomic.Pointer[string]
+	specific   atomic.Int64
+	generic    atomic.Int64
 }
 
 func buildC14(kinds []string) *c14Shared {
@@ -93,6 +99,13 @@ func buildC14(kinds []string) *c14Shared {
 					c14Sink.Add(int64(e.Delay))
 				}).Build())
 		case "breaker":
+			scGeneric := func(e circuitbreaker.StateChangedEvent) {
+				sh.generic.Add(1)
+				if prev := sh.lastState.Swap(int64(e.NewState)); prev != int64(e.OldState) || e.OldState == e.NewState {
+					msg := fmt.Sprintf("OnStateChanged reported %v -> %v but the previous event left the breaker %v", e.OldState, e.NewState, circuitbreaker.State(prev))
+					sh.pathBroken.CompareAndSwap(nil, &msg)
+				}
+			}
 			sc := func(e circuitbreaker.StateChangedEvent) {
 				sh.events.Add(1)
 				m := e.Metrics()
@@ -101,7 +114,10 @@ func buildC14(kinds []string) *c14Shared {
 			}
 			cb := circuitbreaker.Builder[int]().WithFailureThresholdRatio(5, 10).WithDelay(time.Millisecond).
 				WithDelayFunc(func(e failsafe.ExecutionAttempt[int]) time.Duration { touchAttempt(e); return 500 * time.Microsecond }).
-				OnStateChanged(sc).OnOpen(sc).OnClose(sc).OnHalfOpen(sc).OnFailure(ev).OnSuccess(ev).Build()
+				OnStateChanged(func(e circuitbreaker.StateChangedEvent) { sc(e); scGeneric(e) }).
+				OnOpen(func(e circuitbreaker.StateChangedEvent) { sc(e); sh.specific.Add(1) }).
+				OnClose(func(e circuitbreaker.StateChangedEvent) { sc(e); sh.specific.Add(1) }).
+				OnHalfOpen(func(e circuitbreaker.StateChangedEvent) { sc(e); sh.specific.Add(1) }).OnFailure(ev).OnSuccess(ev).Build()
 			sh.cb = append(sh.cb, cb)
 			sh.pols = append(sh.pols, cb)
 		case "limiter":
@@ -125,14 +141,16 @@ func buildC14(kinds []string) *c14Shared {
 			}).OnFallbackExecuted(func(e failsafe.ExecutionDoneEvent[int]) { sh.events.Add(1); touchInfo(e) }).OnFailure(ev).OnSuccess(ev).Build())
 		case "cache":
 			sh.pols = append(sh.pols, cachepolicy.Builder[int](&syncCache{m: map[string]int{}}).WithKey("k").
-				CacheIf(func(v int, e error) bool { return e == nil && v%7 == 0 }).
+				CacheIf(func(v int, e error) bool { return e == nil && v%8 == 0 }).
 				OnCacheHit(func(e failsafe.ExecutionDoneEvent[int]) { sh.events.Add(1); touchInfo(e) }).OnCacheMiss(ev).OnResultCached(ev).Build())
 		}
 	}
 	return sh
 }
 
-type c14ExecCtr struct{ done, success, failure atomic.Int64 }
+type c14ExecCtr struct{ done, success, failure, calls, identityBad atomic.Int64 }
+
+var c14Vals atomic.Int64
 
 type c14Key struct{}
 
@@ -213,13 +231,20 @@ func c14Round(rep *vk.Report, prop string, idx int, kinds []string, salt int) {
 					ctx = context.WithValue(ctx, cachepolicy.CacheKey, fmt.Sprintf("k%d", wr.IntN(3)))
 				}
 				ex := failsafe.NewExecutor[int](sh.pols...).WithContext(ctx).
-					OnDone(func(e failsafe.ExecutionDoneEvent[int]) { ctr.done.Add(1); touchInfo(e) }).
+					OnDone(func(e failsafe.ExecutionDoneEvent[int]) {
+						ctr.done.Add(1)
+						touchInfo(e)
+						if e.Attempts() != 1+e.Retries()+e.Hedges() || e.Executions() > e.Attempts() {
+							ctr.identityBad.Add(1)
+						}
+					}).
 					OnSuccess(func(e failsafe.ExecutionDoneEvent[int]) { ctr.success.Add(1); touchInfo(e) }).
 					OnFailure(func(e failsafe.ExecutionDoneEvent[int]) { ctr.failure.Add(1); touchInfo(e) })
 				beh := wr.IntN(6)
 				dur := time.Duration(wr.IntN(300)) * time.Microsecond
-				val := wr.IntN(50)
+				val := int(c14Vals.Add(1))*8 + wr.IntN(8) // unique per execution; multiples of 8 are cacheable
 				body := func(exec failsafe.Execution[int]) (int, error) {
+					ctr.calls.Add(1)
 					v := inside.Add(1)
 					for {
 						m := maxInside.Load()
@@ -252,15 +277,18 @@ func c14Round(rep *vk.Report, prop string, idx int, kinds []string, salt int) {
 					return val, nil
 				}
 				entry := wr.IntN(8)
+				res, rerr, hasRes := 0, error(nil), false
 				switch entry {
 				case 0:
-					ex.Run(func() error { _, e := body(nil); return e })
+					rerr = ex.Run(func() error { _, e := body(nil); return e })
 				case 1:
-					ex.RunWithExecution(func(e failsafe.Execution[int]) error { _, er := body(e); return er })
+					rerr = ex.RunWithExecution(func(e failsafe.Execution[int]) error { _, er := body(e); return er })
 				case 2:
-					ex.Get(func() (int, error) { return body(nil) })
+					res, rerr = ex.Get(func() (int, error) { return body(nil) })
+					hasRes = true
 				case 3:
-					ex.GetWithExecution(body)
+					res, rerr = ex.GetWithExecution(body)
+					hasRes = true
 				default:
 					var ar failsafe.ExecutionResult[int]
 					switch entry {
@@ -278,7 +306,29 @@ func c14Round(rep *vk.Report, prop string, idx int, kinds []string, salt int) {
 						ar.Cancel()
 					}
 					_ = ar.IsDone()
-					ar.Get()
+					res, rerr = ar.Get()
+					hasRes = entry >= 6
+				}
+				// per-execution sanity under load: the value is this execution's own, a fallback's, a cached one or zero with an
+				// error; the function was not invoked more often than the nesting of retries and hedges admits
+				hasCache := strings.Contains(name, "cache")
+				if hasRes && rerr == nil && res != val && res != -1 && !(hasCache && res%8 == 0) {
+					msg := fmt.Sprintf("execution through %s (entry %d) returned %d, which is neither its own value %d, the fallback's nor a cacheable value", name, entry, res, val)
+					bad.CompareAndSwap(nil, &msg)
+				}
+				maxCalls := int64(1)
+				for _, k := range kinds {
+					if k == "retry" || k == "hedge" {
+						maxCalls *= 3
+					}
+				}
+				if c := ctr.calls.Load(); c > maxCalls {
+					msg := fmt.Sprintf("execution through %s invoked its function %d times, the nesting admits at most %d", name, c, maxCalls)
+					bad.CompareAndSwap(nil, &msg)
+				}
+				if ctr.identityBad.Load() != 0 {
+					msg := fmt.Sprintf("execution through %s: done event violates Attempts == 1 + Retries + Hedges or Executions <= Attempts", name)
+					bad.CompareAndSwap(nil, &msg)
 				}
 				cancel()
 				execs.Add(1)
@@ -306,8 +356,19 @@ func c14Round(rep *vk.Report, prop string, idx int, kinds []string, salt int) {
 	rep.EvalN(execs.Load())
 	rep.Count("executions", execs.Load())
 	rep.Count("listener_events", sh.events.Load())
+	if len(sh.cb) == 1 {
+		if p := sh.pathBroken.Load(); p != nil {
+			rep.Violate(idx, prop+"/breaker-events-not-a-connected-path", fmt.Sprintf("round over %s: %s", name, *p), map[string]any{"composition": name})
+			return
+		}
+		if sh.specific.Load() != sh.generic.Load() {
+			rep.Violate(idx, prop+"/breaker-specific-and-generic-events-differ", fmt.Sprintf("round over %s: %d specific (OnOpen/OnHalfOpen/OnClose) events but %d OnStateChanged events", name, sh.specific.Load(), sh.generic.Load()), map[string]any{"composition": name})
+			return
+		}
+		rep.Count("breaker_events_under_load", sh.generic.Load())
+	}
 	if s := bad.Load(); s != nil {
-		rep.Violate(idx, prop+"/completion-listener-count", *s, map[string]any{"composition": name})
+		rep.Violate(idx, prop+"/per-execution-oracle-under-load", *s, map[string]any{"composition": name})
 		return
 	}
 	if maxInside.Load() >= 2 && execs.Load() >= 100 {
